@@ -161,6 +161,9 @@ type entry struct {
 	name   string
 	typ    reflect.Type
 	values []any // values of exactly type typ (for interface types: dynamic values, nil allowed)
+	// scope names the open finding whose construct this entry is: the driver leaves the entry out
+	// of the sweep while the finding is listed (the finding's witness still replays it)
+	scope string
 }
 
 func typeOf[T any]() reflect.Type { return reflect.TypeFor[T]() }
@@ -180,6 +183,48 @@ func iface[T any](name string, vals ...any) entry {
 }
 
 func ptr[T any](v T) *T { return &v }
+
+func scoped(scope string, en entry) entry { en.scope = scope; return en }
+
+// deepList returns an acyclic linked list of n nodes.
+func deepList(n int) *Rec {
+	var l *Rec
+	for i := 0; i < n; i++ {
+		l = &Rec{V: i, Next: l}
+	}
+	return l
+}
+
+// deepSlice returns 1 nested in n slices; the same inner slice also appears twice in one
+// parent (shared, not cyclic).
+func deepSlice(n int) []any {
+	s := []any{1}
+	for i := 1; i < n; i++ {
+		if i%500 == 0 {
+			s = []any{s, s}
+		} else {
+			s = []any{s}
+		}
+	}
+	return s
+}
+
+func deepMap(n int) map[string]any {
+	m := map[string]any{"k": 1}
+	for i := 1; i < n; i++ {
+		m = map[string]any{"k": m}
+	}
+	return m
+}
+
+// deepMixed nests struct -> interface -> pointer -> struct ...
+func deepMixed(n int) WithAny {
+	w := WithAny{V: 1}
+	for i := 1; i < n; i++ {
+		w = WithAny{V: &WithAny{V: []any{w}}}
+	}
+	return w
+}
 
 var someTime = time.Date(2024, 2, 29, 13, 4, 5, 678000000, time.UTC)
 var otherTime = time.Date(1969, 12, 31, 23, 59, 59, 0, time.FixedZone("X", -5*3600-30*60))
@@ -274,6 +319,14 @@ func table() []entry {
 		e("*time.Time", &someTime, &otherTime, &time.Time{}, ptr(someTime.Add(time.Hour))),
 		e("time.Duration", time.Duration(0), time.Second, -time.Hour, 1),
 		e("time.Month", time.January, time.December, time.Month(0), time.Month(13)),
+		// deeply nested acyclic values (the renderer must tell deep from cyclic)
+		e("*Rec (deep list)", deepList(1200), deepList(5000), deepList(1001), deepList(999)),
+		e("[]any (deep nesting)", deepSlice(1500), deepSlice(1001), deepSlice(3000), deepSlice(10)),
+		e("map[string]any (deep nesting)", deepMap(1200), deepMap(1001), deepMap(2500), deepMap(10)),
+		e("WithAny (deep mixed nesting)", deepMixed(1100), deepMixed(1001), deepMixed(2400), deepMixed(10)),
+		// time values at the limits of what JavaScript can represent
+		e("time.Time (years at the JS limits)", time.Date(999999, 12, 31, 23, 59, 59, 0, time.UTC), time.Date(-999999, 1, 1, 0, 0, 0, 0, time.UTC), time.Date(9999, 1, 1, 0, 0, 0, 0, time.UTC), time.Date(10000, 1, 1, 0, 0, 0, 0, time.UTC), time.Date(-1, 1, 1, 0, 0, 0, 0, time.UTC)),
+		scoped("js-time-year-out-of-range", e("time.Time (year beyond the JS limits)", time.Date(1000001, 1, 1, 0, 0, 0, 0, time.UTC), time.Date(-1000000, 1, 1, 0, 0, 0, 0, time.UTC), time.Date(1000000, 1, 1, 0, 0, 0, 0, time.UTC), time.Date(292277026596, 12, 4, 15, 30, 7, 0, time.UTC))),
 		// composite types
 		e("[3]int", [3]int{}, [3]int{1, 2, 3}, [3]int{-1, 0, 1}, [3]int{9, 9, 9}),
 		e("[0]int", [0]int{}, [0]int{}, [0]int{}, [0]int{}),
